@@ -96,3 +96,81 @@ def list_elements(ip, cn, term, _depth=0):
         # a list variable extended with `+=` inside a loop: final value's structure
         return list_elements(ip, cn, term[4], _depth + 1) if term[4][0] != "undef" else None
     return None
+
+
+def extremum_candidates(ip, cn, term, fn, _depth=0):
+    """the set of values `term` is the minimum (fn='min') / maximum (fn='max') of, as strings;
+    quantified candidates read `X` with X mentioning each(ITER) (taken over the whole iterable).
+    Understands nested min()/max() calls, running-extremum loops (`m = min(m, x)` in a for),
+    min()/max() over a list / generator / comprehension / starred sequence, and drops the identity
+    (inf for min, -inf for max).  A part that is not understood is returned as a leaf (its own text),
+    so the answer is always a superset description, never a guess."""
+    full = "builtins." + fn
+    ident = "math.inf" if fn == "min" else "-math.inf"
+    out = set()
+    if _depth > 8:
+        return {cn.show(term)}
+    k = term[0]
+    if k == "call" and term[1] in (full, "numpy." + fn, "numpy.a" + fn) and term[2] and not any(
+            kk in ("key", "default") for kk, _ in term[3]):
+        args = term[2]
+        if len(args) == 1:
+            elems = _seq_elements(ip, cn, args[0])
+            if elems is None:
+                return {cn.show(term)}
+            for e, conds in elems:
+                if conds:
+                    out.add(cn.show(e) + " if " + " & ".join(cn.show(c) for c in conds))
+                else:
+                    out |= extremum_candidates(ip, cn, e, fn, _depth + 1)
+        else:
+            for a in args:
+                if a[0] == "starred":
+                    elems = _seq_elements(ip, cn, a[1])
+                    if elems is None:
+                        out.add(cn.show(a))
+                        continue
+                    for e, conds in elems:
+                        if conds:
+                            out.add(cn.show(e) + " if " + " & ".join(cn.show(c) for c in conds))
+                        else:
+                            out |= extremum_candidates(ip, cn, e, fn, _depth + 1)
+                else:
+                    out |= extremum_candidates(ip, cn, a, fn, _depth + 1)
+        out.discard(ident)
+        return out
+    if k == "loopout":
+        name, lid, init, final = term[1], term[2], term[3], term[4]
+        carried = ("loopcarried", name, lid)
+        if final[0] == "call" and final[1] == full and carried in final[2]:
+            out |= extremum_candidates(ip, cn, init, fn, _depth + 1)
+            for a in final[2]:
+                if a != carried:
+                    out |= extremum_candidates(ip, cn, a, fn, _depth + 1)
+            out.discard(ident)
+            return out
+        return {cn.show(term)}
+    s = cn.show(term)
+    return {s}
+
+
+def _seq_elements(ip, cn, t):
+    """elements of a sequence-valued term: [(element, [conditions])] or None"""
+    if t[0] == "starred":
+        return _seq_elements(ip, cn, t[1])
+    els = list_elements(ip, cn, t)
+    if els is None:
+        if t[0] == "comp" and t[1] in ("list", "gen", "set"):
+            conds = [c for _, _, cs in t[3] for c in cs]
+            return [(t[2][0], conds)]
+        return None
+    out = []
+    for e, loops, conds in els:
+        if e[0] == "starred":
+            sub = _seq_elements(ip, cn, e[1])
+            if sub is None:
+                return None
+            out.extend((x, list(conds) + list(c2)) for x, c2 in sub)
+        else:
+            out.append((e, [c for c in conds if c[0] not in ("inloop", "fact")]))
+    return out
